@@ -54,7 +54,7 @@ def process(prop, failures, problems=()):
                 still = None
                 info.append(dict(id=fid, witness_error=repr(ex)))
         if still or matched:
-            lines.append("KNOWN-FINDING: property=%s %s: %s" % (prop, fid, e["what"]))
+            lines.append("KNOWN-FINDING: property=%s %s: %s" % (prop, fid, e.get("short", e["what"])))
         info.append(dict(id=fid, status="known", witness_still_fails=bool(still), matched_failures=len(matched)))
     return lines, remaining, rem_problems, info
 
@@ -78,3 +78,43 @@ def _f10_witness():
     p = comp_problem(WingboxFuelVolDelta(surface=s), dict(fuelburn=np.array([2000.0]), fuel_vols=np.array([1.0, 2.0])))
     J = comp_jacobian(p, ["fuel_vol_delta"], ["fuel_vols"])[("fuel_vol_delta", "fuel_vols")]
     return bool(np.max(np.abs(J - 1.0)) > 1e-6) or float(p.model.c._inputs["fuelburn"][0]) != 2000.0
+
+
+# ---------------------------------------------------------------------------------------
+# F8a  Rotate pre-rotates sections about x by the dihedral of the reference axis at zero twist
+# ---------------------------------------------------------------------------------------
+@classifier("F8a")
+def _f8a_class(f):
+    return f.get("finding") == "F8a"
+
+
+@witness("F8a")
+def _f8a_witness():
+    import numpy as np
+    import openaerostruct.geometry.geometry_mesh_transformations as GT
+    from .core import comp_problem
+    # 2x2 symmetric half mesh: reference axis rises 1 m over 2 m of span; the trailing edge is 0.1 m above the chord line
+    mesh = np.array([[[0.0, -2.0, 1.0], [0.0, 0.0, 0.0]], [[1.0, -2.0, 1.1], [1.0, 0.0, 0.1]]])
+    p = comp_problem(GT.Rotate(val=np.zeros(2), mesh_shape=mesh.shape, symmetry=True), dict(twist=np.zeros(2), in_mesh=mesh))
+    return bool(np.max(np.abs(np.array(p.get_val("mesh")) - mesh)) > 1e-6)
+
+
+# ---------------------------------------------------------------------------------------
+# F8b  Stretch overwrites the y of every chordwise row with the reference-axis y
+# ---------------------------------------------------------------------------------------
+@classifier("F8b")
+def _f8b_class(f):
+    return f.get("finding") == "F8b"
+
+
+@witness("F8b")
+def _f8b_witness():
+    import numpy as np
+    import openaerostruct.geometry.geometry_mesh_transformations as GT
+    from .core import comp_problem
+    # trailing edge nodes 0.2 m outboard of the leading edge nodes (raked sections); span input = current span
+    mesh = np.array([[[0.0, -2.0, 0.0], [0.0, 0.0, 0.0]], [[1.0, -2.2, 0.0], [1.0, 0.0, 0.0]]])
+    ref = 0.25 * mesh[-1] + 0.75 * mesh[0]
+    span = 2 * (ref[-1, 1] - ref[0, 1])
+    p = comp_problem(GT.Stretch(val=span, mesh_shape=mesh.shape, symmetry=True), dict(span=np.array([span]), in_mesh=mesh))
+    return bool(np.max(np.abs(np.array(p.get_val("mesh")) - mesh)) > 1e-6)
